@@ -519,6 +519,13 @@ class DAGRunConcurrentManager(DAGRunManagerLike):
                 await self.__unlock_itself(dag.dest)
                 return None
 
+            if not dag.is_oneof and not self._is_head_of_oneof(node_id):
+                # A failure that has been stored as a result for a OneOf subgraph is still a failure for
+                # the nodes that need the failed node outside of the OneOf subgraph.
+                for pred_node_id in self._get_predecessors(dag, node_id):
+                    if self._node_storage.exists_node_error(pred_node_id):
+                        await self.__raise_exc(self._node_storage.get_node_result(pred_node_id))
+
             if self._is_switch(node_id):
                 coro_to_run = self._run_switch(dag, node_id)
 
